@@ -132,6 +132,7 @@ def tracking(p):
 
 class C11(Monitor):
     prop = "C11"
+    quick_cases = 1000
     rule = ("random interleavings of OctoPrint events (print started/done/failed/cancelling/cancelled/error, paused, resumed and "
             "unrelated events, file selected), G-code and @-commands through the real queuing hooks, script-hook calls, settings "
             "updates (clear-after-print on/off) and API adds; a 20-line reference state machine predicts the active flag, the hook "
@@ -139,8 +140,6 @@ class C11(Monitor):
             "and both values of the clear-after-print setting; distinct by digest")
     assumptions = ["OctoPrint is replaced at its boundary: real settings object, recording plugin manager / comm / current user"]
 
-    def budget(self, tier):
-        return dict(workers=4, cases=300) if tier == "quick" else dict(workers=16, cases=0, secs=180, timeout=1500)
 
     def gen_case(self, rnd, tier, k):
         settings = rand_settings(rnd)
@@ -225,6 +224,7 @@ class C11(Monitor):
 
 class C10(Monitor):
     prop = "C10"
+    quick_cases = 900
     rule = ("differential: plugin P1 lives through a random history (prints aborted mid-episode, disabled exclusion, pending deferred "
             "codes, owed recoveries, inch/relative left on, API edits, settings updates, file selection), then PrintStarted and a "
             "random program Q with @-commands, ending with the afterPrintDone hook; plugin P2 is created fresh with the same settings "
@@ -233,8 +233,6 @@ class C10(Monitor):
             "ended mid-episode, disabled, retracted or in inch/relative mode; distinct by digest")
     assumptions = C11.assumptions
 
-    def budget(self, tier):
-        return dict(workers=4, cases=250) if tier == "quick" else dict(workers=16, cases=0, secs=180, timeout=1500)
 
     def gen_case(self, rnd, tier, k):
         settings = rand_settings(rnd)
